@@ -1,5 +1,83 @@
-/- C01 — property theorems (under construction; see PS/Proofs/Grammar.lean). -/
-import PS.Model.Cfg
+/-
+  C01 — A depth-bounded grammar denotes exactly the well-typed programs of its DSL.
+  Property theorems (models: PS/Model/Grammar.lean, PS/Model/Cfg.lean; lemmas: PS/Proofs/*).
+
+  How the pieces fit.  `wt P some` is the statement's set of terms.  `ruleSet` transcribes the
+  rule-creation step of `CFG.depth_constraint`; `tableOK` is a *verified checker* that every
+  check run evaluates on the rule table actually produced by the implementation.  Theorem
+  `C01_certified` says: a table accepted by the checker has exactly the language `wt`
+  (membership being the implementation's stack-based `__contains_rec__`, theorem
+  `C01_contains_gen`), so for every generated input the property is *proved* for the real
+  output, not sampled.
+-/
+import PS.Proofs.Cfg
 namespace PS.G
-theorem C01_placeholder_startNT (P : Params) : (startNT P).1 = P.request.returns := rfl
+open PS
+
+/-- **Membership** by the deterministic stack-based derivation (with the arity check) is
+    exactly top-down matching of the rule table — for every grammar and every program. -/
+theorem C01_contains_gen {S : Type} [DecidableEq S] (G : TT S Unit) (t : Prog) :
+    contains G t = gen G t G.start :=
+  contains_eq_gen G t
+
+/-- **Rule creation = well-typed terms**: the terms derivable when every non-terminal
+    `(type, n-gram, depth)` carries the rules created for it are exactly the well-typed terms
+    (depth bound, minimum variable depth, constant types, forbidden patterns as far as the
+    n-gram shows the parent). For all parameters. -/
+theorem C01_rules_wt (P : Params) (t : Prog) :
+    genR P t (startNT P) = wt P (effParent P) t 0 none P.request.returns := by
+  have := genR_eq_wt P t.size t (Nat.le_refl _) P.request.returns [] 0 (fun _ => rfl)
+  simpa [startNT] using this
+
+/-- **Certified tables**: for every rule table `G` accepted by the checker (whatever produced
+    it — here: the implementation), membership in `G` is exactly well-typedness. In
+    particular the table contains no term outside `wt` and misses none. -/
+theorem C01_certified (P : Params) (G : CFG) (dead : List CNT) (rankR rankP : AList CNT Nat)
+    (h : tableOK P G dead rankR rankP = true) (t : Prog) :
+    contains G t = wt P (effParent P) t 0 none P.request.returns := by
+  unfold tableOK at h
+  simp only [Bool.and_eq_true] at h
+  obtain ⟨⟨⟨⟨hstart, hrules⟩, hdead⟩, _⟩, _⟩ := h
+  unfold okStart at hstart
+  simp only [Bool.and_eq_true, beq_iff_eq, decide_eq_true_eq] at hstart
+  obtain ⟨⟨hs, hkey⟩, _⟩ := hstart
+  rw [C01_contains_gen, table_gen_eq_genR P G dead hrules hdead t.size t (Nat.le_refl _) G.start hkey,
+    hs, C01_rules_wt]
+
+/-- **The statement's language** (every child sees its parent, so *no* forbidden
+    (parent, index, child) pattern occurs, whatever the arity of the child) — under the
+    hypothesis that the n-gram is wide enough to hold the parent.
+    Full statement (false on the unchanged tree for `n_gram ∈ {0,1}`, finding C01-F2, see
+    `finding_C01_F2`):  ∀ P, tableOK … → contains G t = wtTop P t. -/
+theorem C01_statement_partial (P : Params) (G : CFG) (dead : List CNT) (rankR rankP : AList CNT Nat)
+    (h : tableOK P G dead rankR rankP = true) (hn : P.nGram ≥ 2 ∨ P.nGram < 0) (t : Prog) :
+    contains G t = wtTop P t := by
+  rw [C01_certified P G dead rankR rankP h t]
+  have : effParent P = some := by
+    funext p; simp [effParent, hn]
+  rw [this]; rfl
+
+/-! ### non-vacuity and the recorded finding -/
+namespace Example
+def int : Ty := .base "int"
+def plus : Sym := Sym.prim "+" (.arrow int (.arrow int int))
+def one : Sym := Sym.prim "1" int
+/-- DSL {+, 1}, forbidden ("+", 0) ↦ {"+"}, request int -> int, depth 3 -/
+def P2 : Params := { prims := [plus, one], forbidden := [(("+", 0), ["+"])], request := .arrow int int,
+                     maxDepth := 3, minVarDepth := 1, nGram := 2, recursive := false, constTypes := [] }
+def P1 : Params := { P2 with nGram := 1 }
+def leaf (s : Sym) : Prog := .node s []
+/-- `(+ (+ 1 1) 1)` : the forbidden pattern ("+", 0, "+") -/
+def bad : Prog := .node plus [.node plus [leaf one, leaf one], leaf one]
+def good : Prog := .node plus [leaf one, .node plus [leaf one, leaf (Sym.var 0 int)]]
+end Example
+open Example in
+/-- the statement's language is not trivial: it contains `good`, rejects `bad` -/
+example : wtTop P2 good = true ∧ wtTop P2 bad = false := by decide
+open Example in
+/-- **finding C01-F2** on the model: with `n_gram = 1` the rules generate the term that the
+    statement forbids. -/
+theorem finding_C01_F2 :
+    genR P1 bad (startNT P1) = true ∧ wtTop P1 bad = false := by decide
+
 end PS.G
